@@ -33,14 +33,16 @@ CLAIMS = {
         text='Decides the code-shape chain behind "exit 0 => certified '
              'field": every CONVERGED store sits under a tolerance guard fed '
              'by a residual of the returned field with no field writer in '
-             'between (or the zero-source / scipy-info==0 certificate), the '
+             'between (or the zero-source certificate; the return code of the '
+             'scipy Krylov solvers alone is not accepted, see F30), the '
              'exit status and info figures derive from that bookkeeping and '
              'are fresh, the caller-supplied field is never re-bound, all 12 '
              'PEC slices are zeroed and no solver-side writer stores to a '
              'tangential boundary edge, dtype is propagated, failure arms '
              'always store a non-success message. It does not bound any '
              'residual numerically.',
-        note='Trusted: scipy Krylov contract (info==0 <=> tolerance met), '
+        note='Trusted: scipy returns info==maxiter at the limit and <0 on '
+             'breakdown (its info==0 is NOT trusted as a certificate), '
              'Field.fx/fy/fz are views and Field.field setter writes in '
              'place (both read off source). Numerical size of residuals and '
              'the operator itself (C02) are not decided here.'),
